@@ -215,20 +215,15 @@ theorem decU64s_count (n : Nat) (b r : Bytes) (l : List Nat)
     (h : decU64s n b = some (l, r)) : l.length = n ∧ r.length + n ≤ b.length :=
   repeatN_count u64_consuming n b r l h
 
-/-- size of an item list on the wire -/
-def itemsSize (sd : Serde ι) : List ι → Nat
-  | [] => 0
-  | x :: t => (sd.enc x).length + itemsSize sd t
-
-theorem length_encItems (sd : Serde ι) (l : List ι) : (encItems sd l).length = itemsSize sd l := by
+theorem length_encItems (sd : Serde ι) (l : List ι) : (encItems sd l).length = itemsBytes sd l := by
   induction l with
   | nil => rfl
-  | cons x t ih => simp [encItems, itemsSize, ih]
+  | cons x t ih => simp [encItems, itemsBytes, ih]
 
-theorem itemsSize_u64 (l : List Nat) : itemsSize serdeU64 l = 8 * l.length := by
+theorem itemsBytes_u64 (l : List Nat) : itemsBytes serdeU64 l = 8 * l.length := by
   induction l with
   | nil => rfl
-  | cons x t ih => simp only [itemsSize, serdeU64, length_w64, List.length_cons] at *; omega
+  | cons x t ih => simp only [itemsBytes, serdeU64, length_w64, List.length_cons] at *; omega
 
 /-- generic consequence of prefix safety + exact decode (restated for readers with a parameter) -/
 theorem prefix_rejected' (rd : Reader α) (h : PS rd) (img : Bytes) (x : α)
